@@ -6,7 +6,7 @@ Handler `rv`: executable face of `Model/TinyRV0.lean` and `Model/Cksum.lean` for
 correspondence check.
 
 * `rv run ((addr word) ...) (inp ...) fuel`
-    → `<stop> <icount> <pc> (out ...) (x0 ... x31) ((addr word) ...)`
+    → `<stop> <icount> <pc> (out ...) (x0 ... x31) ((addr word) ...) <xr0>`   (`runX`: ISA + NullXcel register)
     the memory listing holds every word that has at least one byte present in the final memory
     (initial image and stores), sorted by address.
 * `rv decode w`                → `none` | `<name> a b c` (fields in the order of `Inst`'s constructor)
@@ -56,8 +56,9 @@ def handle (args : List Sexp) : Option String :=
       let inp ← inp.nats?
       let fuel ← fuel.nat?
       if ws.any (fun aw => aw.2 ≥ W32) || inp.any (· ≥ W32) then none else
-      let (s, n, stop) := run fuel (State.init (loadImage ws) inp) 0
-      some s!"{stop.name} {n} {s.pc} {natsToString s.out} {natsToString s.regs} {showMem s.mem}"
+      let (sx, n, stop) := runX fuel (StateX.init (loadImage ws) inp) 0
+      let s := sx.core
+      some s!"{stop.name} {n} {s.pc} {natsToString s.out} {natsToString s.regs} {showMem s.mem} {sx.xr0}"
   | [.atom "decode", w] => do
       match decode (← w.nat?) with
       | some i => some (showInst i)
